@@ -24,9 +24,10 @@ import (
 )
 
 type tester struct {
-	b   *harness.B
-	c   *chaingen.Chain
-	rng *rand.Rand
+	b      *harness.B
+	c      *chaingen.Chain
+	rng    *rand.Rand
+	payout map[types.FileContractID]types.Currency // v1 contracts: payout as formed
 	// carrier block for the supplement route (one arbitrary-data v1 txn), rebuilt per state
 	carrier    *types.Block
 	carrierFor types.BlockID
@@ -1101,6 +1102,39 @@ func (t *tester) v1Fabrications(cs consensus.State, orig types.Block) {
 
 func (t *tester) onApply(ev chaingen.ApplyEvent) {
 	h := ev.Next.Index.Height
+	// the field values of a v1 contract leaf are those the history created: the payout is fixed at formation (a
+	// revision cannot change it and does not even transmit it), so every later report of the contract carries it
+	if t.payout == nil {
+		t.payout = map[types.FileContractID]types.Currency{}
+	}
+	for i := range ev.Block.Transactions {
+		txn := &ev.Block.Transactions[i]
+		for k, fc := range txn.FileContracts {
+			t.payout[txn.FileContractID(k)] = fc.Payout
+		}
+	}
+	revs := map[types.FileContractID]int{}
+	for i := range ev.Block.Transactions {
+		for _, r := range ev.Block.Transactions[i].FileContractRevisions {
+			if revs[r.ParentID]++; revs[r.ParentID] == 2 {
+				t.b.Count(fmt.Sprintf("v1_contracts_revised_twice_in_a_block/wire=%v", t.c.WireBlocks), 1)
+			}
+		}
+	}
+	for _, d := range ev.AU.FileContractElementDiffs() {
+		want, ok := t.payout[d.FileContractElement.ID]
+		if !ok {
+			continue
+		}
+		t.b.Count("v1_contract_payout_fields_checked", 1)
+		got := d.FileContractElement.FileContract.Payout
+		if d.Revision != nil && !d.Resolved {
+			got = d.Revision.Payout
+		}
+		if got != want {
+			t.b.Violate("C04/element-field-not-from-history/v1-contract-payout", fmt.Sprintf("v1 contract %v was formed with payout %v; the update of height %d reports it (and writes its leaf) with payout %v", d.FileContractElement.ID, want, h, got), map[string]any{"height": h, "kinds": ev.Kinds})
+		}
+	}
 	// remember freshly spent elements (post-block proof is in the diff)
 	n := 0
 	for _, d := range ev.AU.SiacoinElementDiffs() {
@@ -1189,6 +1223,7 @@ func run(b *harness.B) {
 		rng := b.SubRng(fmt.Sprint("net", i))
 		net := chaingen.GenNet(rng, fam, b.Batch*100+i)
 		c := chaingen.NewChain(net, rng)
+		c.WireBlocks = i%2 == 1 // every other network receives its blocks from the wire
 		t := &tester{b: b, c: c, rng: b.SubRng(fmt.Sprint("tester", i))}
 		every := b.Pick(4, 3)
 		c.OnStoreApplied = func(ev chaingen.ApplyEvent) {
@@ -1236,7 +1271,13 @@ func run(b *harness.B) {
 			t.sample(ev.Prev)
 		}
 		for done := 0; done < blocks; {
-			done += c.Grow(1+rng.IntN(10), chaingen.Plan{MaxTxns: 6})
+			plan := chaingen.Plan{MaxTxns: 6}
+			if c.WireBlocks {
+				// contracts formed and revised again and again (several times per block): the fields of a contract
+				// leaf must survive revisions whose payout field arrives as the not-transmitted sentinel
+				plan.Weights = map[string]int{"v1-form": 3, "v1-revise": 8, "v1-form+revise": 3}
+			}
+			done += c.Grow(1+rng.IntN(10), plan)
 			if c.Height() > 2 && rng.IntN(3) == 0 {
 				k := min(1+rng.IntN(4), int(c.Height()))
 				for r := 0; r < k; r++ {
